@@ -213,6 +213,17 @@ def main(ctx):
     for n, v in singles:
         for rel, lang in rng.sample(comp, 1 if quick else 6):
             cases.append(family.Case(corpus.read(rel), lang, c_domain({n: v}, lang), {'kind': 'corpus', 'file': rel, 'cfgkind': 'single-sweep'}))
+    # full single-option sweep on fixed generated programs: every setting of every option of the domain, once on a rich C program
+    # (every statement kind, macros, conditional groups) and every third one on a C++ translation unit made of all snippets
+    fixed_c = layout.render(gen_c.fixed_program(2, junk_brackets=False), random.Random(7), 'C', dict(p_cmt=0.05, bs_cmt=0.0))[0].encode()
+    cpp_toks = []
+    for i in range(len(gen_cpp.SNIPPETS)):
+        cpp_toks += gen_cpp.tokens_of(gen_cpp.SNIPPETS[i], '%d' % i, False)
+    fixed_cpp = layout.render(cpp_toks, random.Random(8), 'CPP', dict(p_cmt=0.05, bs_cmt=0.0))[0].encode()
+    for j, (n, v) in enumerate(_SINGLES):
+        cases.append(family.Case(fixed_c, 'C', c_domain({n: v}, 'C'), {'kind': 'fixed-program', 'file': 'fixed:c', 'cfgkind': 'single-sweep-all'}))
+        if j % 3 == 0 or not quick:
+            cases.append(family.Case(fixed_cpp, 'CPP', {n: v}, {'kind': 'fixed-program', 'file': 'fixed:cpp', 'cfgkind': 'single-sweep-all'}))
     # enumerated brace shapes (dangling-else family) x brace options
     bcfgs = [{'mod_full_brace_if': 'remove', 'mod_full_brace_for': 'remove', 'mod_full_brace_while': 'remove', 'mod_full_brace_do': 'remove'},
              {'mod_full_brace_if': 'add', 'mod_full_brace_for': 'add', 'mod_full_brace_while': 'add'},
